@@ -12,11 +12,19 @@
       internal/server/message/message.go  evaluateTokens: flag keys of SEARCH
 
     A row is (message_id, mailbox_id, uid, flags); [lk_flags] holds the atoms
-    (strings.Fields) of the stored flag string, see Model/Flags.v.  SQL
-    statements are list operations; the UNIQUE(mailbox_id, uid) constraint is
-    the explicit check in [insert].  EXAMINE sets no read-only bit in
-    ClientState, so the [ro] argument of the operations is ignored by [step]
-    ("model the code that exists").  No proofs in this file. *)
+    (strings.Fields) of the stored flag string, see Model/Flags.v (every writer
+    - APPEND, STORE, COPY, the Junk move - stores the atoms joined by one
+    blank).  SQL statements are list operations; the UNIQUE(mailbox_id, uid)
+    constraint is the explicit check in [insert].
+
+    State of the code modelled: /repo after the fix wave (fixes/01..05):
+    ClientState.ReadOnly ([ro]) is honoured by STORE / UID STORE / EXPUNGE /
+    CLOSE; plain STORE resolves its sequence numbers to UIDs before the loop and
+    then runs the loop body of UID STORE; rows are updated / moved by
+    (mailbox_id, uid); MoveMessageToMailbox reports "not moved" when the
+    message already is in the destination; flags are compared as whole words
+    (hasFlag, parseFlagsToSet, instr(' '||flags||' ', ' \Seen ')).
+    No proofs in this file. *)
 From Coq Require Import String Ascii List Bool Arith ZArith.
 From Raven Require Import Base.GoStr Model.Flags.
 Import ListNotations.
@@ -81,20 +89,19 @@ Definition expand_uid (ls : list link) (mb : Z) (s : seqset) : list Z :=
          let lo := Z.min a b in let hi := Z.max a b in
          map lk_uid (filter (fun l => (lo <=? lk_uid l) && (lk_uid l <=? hi)) (mbox_links ls mb))) s.
 
-(** ---- MoveMessageToMailbox; [None] = an error is returned ---- *)
-Definition move (ls : list link) (msg src dest : Z) (fl : list str) : option (list link) :=
-  if src =? dest then Some ls                       (* "Don't move if already in the destination": return nil *)
+(** ---- MoveMessageToMailbox(messageID, source mailbox, source UID, ...);
+    [None] = (false, nil) "already in the destination" or an error: in both
+    cases the caller goes on to the UPDATE ---- *)
+Definition move (ls : list link) (msg src u dest : Z) (fl : list str) : option (list link) :=
+  if src =? dest then None
   else
     let nu := max_uid ls dest + 1 in
     match insert ls (mkLink msg dest nu fl) with
     | None => None
-    | Some ls' => Some (filter (fun l => negb ((lk_msg l =? msg) && (lk_mbox l =? src))) ls')
+    | Some ls' => Some (filter (fun l => negb (has_key src u l)) ls')   (* DELETE ... WHERE mailbox_id = ? AND uid = ? *)
     end.
 
-(** UPDATE message_mailbox SET flags = ? WHERE message_id = ? AND mailbox_id = ?   (HandleStore) *)
-Definition upd_msg (msg mb : Z) (ls : list link) (fl : list str) : list link :=
-  map (fun l => if (lk_msg l =? msg) && (lk_mbox l =? mb) then set_flags l fl else l) ls.
-(** UPDATE message_mailbox SET flags = ? WHERE mailbox_id = ? AND uid = ?          (handleUIDStore) *)
+(** UPDATE message_mailbox SET flags = ? WHERE mailbox_id = ? AND uid = ?   (HandleStore and handleUIDStore) *)
 Definition upd_uid (mb u : Z) (ls : list link) (fl : list str) : list link :=
   map (fun l => if has_key mb u l then set_flags l fl else l) ls.
 
@@ -102,43 +109,42 @@ Definition junk_added (cur upd : list str) : bool := negb (mem JUNK (to_set cur)
 Definition nonjunk_added (cur upd : list str) : bool := negb (mem NONJUNK (to_set cur)) && mem NONJUNK (to_set upd).
 
 (** body of the per-message loop of HandleStore / handleUIDStore after the row [l0] was read *)
-Definition store_row (e : env) (ls : list link) (mb : Z) (l0 : link) (item : str) (new : list str)
-           (upd_stmt : list link -> list str -> list link) : list link :=
+Definition store_row (e : env) (ls : list link) (mb : Z) (l0 : link) (item : str) (new : list str) : list link :=
   let cur := lk_flags l0 in
   let upd := calculate_new_flags cur new item in
+  let u := lk_uid l0 in
   if junk_added cur upd then
-    match move ls (lk_msg l0) mb (spam_id e) (remove_flag_from_set (to_set upd) NONJUNK) with
-    | Some ls' => ls'                                  (* "continue": no UPDATE *)
-    | None => upd_stmt ls upd
+    match move ls (lk_msg l0) mb u (spam_id e) (remove_flag_from_set (to_set upd) NONJUNK) with
+    | Some ls' => ls'                                  (* moved: "continue", no UPDATE *)
+    | None => upd_uid mb u ls upd
     end
   else if nonjunk_added cur upd then
-    match move ls (lk_msg l0) mb (inbox_id e) (remove_flag_from_set (to_set upd) JUNK) with
+    match move ls (lk_msg l0) mb u (inbox_id e) (remove_flag_from_set (to_set upd) JUNK) with
     | Some ls' => ls'
-    | None => upd_stmt ls upd
+    | None => upd_uid mb u ls upd
     end
-  else upd_stmt ls upd.
+  else upd_uid mb u ls upd.
 
-Definition store_seq_one (e : env) (mb : Z) (item : str) (new : list str) (ls : list link) (n : Z) : list link :=
-  match nth_link ls mb n with
-  | None => ls
-  | Some l0 => store_row e ls mb l0 item new (upd_msg (lk_msg l0) mb)
-  end.
+(** SELECT ... WHERE mailbox_id = ? AND uid = ?, then the loop body *)
 Definition store_uid_one (e : env) (mb : Z) (item : str) (new : list str) (ls : list link) (u : Z) : list link :=
   match find_key ls mb u with
   | None => ls
-  | Some l0 => store_row e ls mb l0 item new (upd_uid mb u)
+  | Some l0 => store_row e ls mb l0 item new
   end.
 
-(** HandleStore: the set is expanded once, rows are looked up in the current table *)
+(** HandleStore: mailboxUIDs[seq-1] for every expanded sequence number, taken
+    before the loop *)
+Definition seq_targets (ls : list link) (mb : Z) (s : seqset) : list Z :=
+  flat_map (fun n => match nth_link ls mb n with Some l => [lk_uid l] | None => [] end) (expand_seq ls mb s).
 Definition store_seq (e : env) (ls : list link) (mb : Z) (s : seqset) (item : str) (new : list str) : list link :=
-  fold_left (store_seq_one e mb item new) (expand_seq ls mb s) ls.
+  fold_left (store_uid_one e mb item new) (seq_targets ls mb s) ls.
 (** handleUIDStore *)
 Definition store_uid (e : env) (ls : list link) (mb : Z) (s : seqset) (item : str) (new : list str) : list link :=
   fold_left (store_uid_one e mb item new) (expand_uid ls mb s) ls.
 
 (** handleUIDCopy: one transaction; any INSERT error rolls everything back *)
 Definition copy_flags (fl : list str) : list str :=
-  if existsb (fun f => contains f RECENT) fl then fl else fl ++ [RECENT].
+  if mem RECENT (to_set fl) then fl else fl ++ [RECENT].
 Fixpoint copy_loop (ls : list link) (mb dest nu : Z) (uids : list Z) : option (list link) :=
   match uids with
   | [] => Some ls
@@ -170,14 +176,13 @@ Definition append (s : st) (mb : Z) (fl : list str) : st :=
   | None => mkSt (links s) (bump (nexts s) mb) (next_msg s + 1)
   end.
 
-(** flags LIKE '%\Deleted%' (SQLite LIKE: ASCII case-insensitive, backslash literal) *)
-Definition like_has (fl : list str) (q : str) : bool :=
-  existsb (fun f => contains (to_lower f) (to_lower q)) fl.
+(** hasFlag(flags, q);  instr(' ' || flags || ' ', ' q ') > 0 *)
+Definition has_flag (fl : list str) (q : str) : bool := mem q fl.
 Definition DELETED : str := S_ "\Deleted".
 Definition SEEN : str := S_ "\Seen".
 (** HandleExpunge / HandleClose *)
 Definition expunge (ls : list link) (mb : Z) : list link :=
-  filter (fun l => negb (in_mbox mb l && like_has (lk_flags l) DELETED)) ls.
+  filter (fun l => negb (in_mbox mb l && has_flag (lk_flags l) DELETED)) ls.
 
 (** ---- operations of a history ---- *)
 Inductive op :=
@@ -189,13 +194,14 @@ Inductive op :=
 
 Definition with_links (s : st) (ls : list link) : st := mkSt ls (nexts s) (next_msg s).
 
+(** [ro]: state.ReadOnly, set by EXAMINE: NO [READ-ONLY] / CLOSE without expunge *)
 Definition step (e : env) (s : st) (o : op) : st :=
   match o with
-  | OStore _ _ mb q item new => with_links s (store_seq e (links s) mb q item new)
-  | OUidStore _ _ mb q item new => with_links s (store_uid e (links s) mb q item new)
+  | OStore ro _ mb q item new => if ro then s else with_links s (store_seq e (links s) mb q item new)
+  | OUidStore ro _ mb q item new => if ro then s else with_links s (store_uid e (links s) mb q item new)
   | OUidCopy mb q dest => with_links s (copy_uid (links s) mb q dest)
   | OAppend mb fl => append s mb fl
-  | OExpunge _ mb => with_links s (expunge (links s) mb)
+  | OExpunge ro mb => if ro then s else with_links s (expunge (links s) mb)
   end.
 
 Fixpoint run (e : env) (s : st) (h : list op) : st :=
@@ -205,15 +211,13 @@ Fixpoint run (e : env) (s : st) (h : list op) : st :=
 Definition view (ls : list link) (mb : Z) : list (Z * list str) :=
   map (fun l => (lk_uid l, lk_flags l)) (mbox_links ls mb).
 
-(** strings.Contains(msg.flags, q) *)
-Definition flags_contain (fl : list str) (q : str) : bool := existsb (fun f => contains f q) fl.
 
 Inductive skey := KHas (q : str) | KNot (q : str) | KNew.
 Definition key_holds (k : skey) (fl : list str) : bool :=
   match k with
-  | KHas q => flags_contain fl q
-  | KNot q => negb (flags_contain fl q)
-  | KNew => flags_contain fl RECENT && negb (flags_contain fl SEEN)
+  | KHas q => has_flag fl q
+  | KNot q => negb (has_flag fl q)
+  | KNew => has_flag fl RECENT && negb (has_flag fl SEEN)
   end.
 
 Fixpoint positions {A} (p : A -> bool) (i : Z) (l : list A) : list Z :=
@@ -223,7 +227,7 @@ Definition search (ls : list link) (mb : Z) (k : skey) : list Z :=
   positions (fun l => key_holds k (lk_flags l)) 1 (mbox_links ls mb).
 (** GetUnseenCountPerUser *)
 Definition unseen_count (ls : list link) (mb : Z) : Z :=
-  Z.of_nat (length (filter (fun l => negb (like_has (lk_flags l) SEEN)) (filter (in_mbox mb) ls))).
+  Z.of_nat (length (filter (fun l => negb (has_flag (lk_flags l) SEEN)) (filter (in_mbox mb) ls))).
 (** [UNSEEN n] of SELECT/EXAMINE *)
 Definition first_unseen (ls : list link) (mb : Z) : option Z :=
-  hd_error (positions (fun l => negb (like_has (lk_flags l) SEEN)) 1 (mbox_links ls mb)).
+  hd_error (positions (fun l => negb (has_flag (lk_flags l) SEEN)) 1 (mbox_links ls mb)).
